@@ -489,6 +489,12 @@ impl World {
         outgoing.iter().all(|h| self.approved_now(&h.payment_hash.0))
     }
 
+    /// sum of the store versions of the channel entries (main store): changes iff a channel entry was written
+    pub fn channel_entry_version(&self) -> u64 {
+        use vls_persist::kvv::{KVVStore, KVV};
+        self.store.0.get_prefix("channel").map(|it| it.map(|KVV(_, (v, _))| v + 1).sum()).unwrap_or(0)
+    }
+
     pub fn is_ready(&self) -> bool {
         let slot = self.node.get_channel(&self.channel_id).unwrap();
         let g = slot.lock().unwrap_or_else(|e| e.into_inner());
@@ -1039,6 +1045,7 @@ impl World {
             return format!("{} {}", kind, line);
         }
         let ready = self.is_ready();
+        let v0 = self.channel_entry_version();
         let res: Result<String, String> = match catch_unwind(AssertUnwindSafe(|| -> Result<String, String> {
             match kind {
                 "setup" => {
@@ -1680,7 +1687,8 @@ impl World {
         if head == "bad-op" {
             return head;
         }
-        format!("{} | {}", head, self.digest())
+        let v1 = self.channel_entry_version();
+        format!("{} | {} w={}", head, self.digest(), if v1 != v0 { 1 } else { 0 })
     }
 }
 
